@@ -306,6 +306,33 @@ func (ex *Exec) frameObligations(tc *topCtx, fr *frame, st *PState, ct *Contract
 		add("trace", And(Eq(st.traceN, tc.entry.traceN), Eq(st.trace, tc.entry.trace)))
 	}
 	_ = modHeaps
+	// ghost counters: a function that changes one says so (modifies ghost(name), or its own bumps clause)
+	declared := map[string]bool{}
+	for _, m := range ct.Modifies {
+		m = strings.TrimSpace(m)
+		if strings.HasPrefix(m, "ghost(") && strings.HasSuffix(m, ")") {
+			declared["GH_"+sanitize(strings.TrimSpace(m[6:len(m)-1]))] = true
+		}
+	}
+	for _, b := range ct.Bumps {
+		declared["GH_"+sanitize(b.Name)] = true
+	}
+	var gnames []string
+	for name := range st.heaps {
+		if strings.HasPrefix(name, "GH_") {
+			gnames = append(gnames, name)
+		}
+	}
+	sort.Strings(gnames)
+	for _, name := range gnames {
+		if declared[name] {
+			continue
+		}
+		h0 := T{S: name + "_0", Sort: SInt}
+		if st.heaps[name].S != h0.S {
+			add("ghost counter "+strings.TrimPrefix(name, "GH_"), Eq(st.heaps[name], h0))
+		}
+	}
 }
 
 func keys(m map[string]bool) []string {
